@@ -14,6 +14,7 @@ import (
 	"fmt"
 	"io"
 	"log"
+	"reflect"
 	"runtime"
 	"strconv"
 	"strings"
@@ -42,11 +43,17 @@ var silenceOnce sync.Once
 
 func silence() {
 	silenceOnce.Do(func() {
-		logger.GetLogProxy("exception").SetLogLevel(logrus.PanicLevel)
+		// the exception log stays ENABLED (doTask's recover handler formats the panic value and
+		// the stack into it - that code must run) but writes nothing
+		logger.GetLogProxy("exception").SetFormatter(nullFormatter{}).SetLogLevel(logrus.ErrorLevel)
 		logger.GetLogProxy("default").SetLogLevel(logrus.PanicLevel)
 		log.SetOutput(io.Discard)
 	})
 }
+
+type nullFormatter struct{}
+
+func (nullFormatter) Format(*logrus.Entry) ([]byte, error) { return nil, nil }
 
 // ---- goroutine identity (petermattis/goid is constant on this toolchain) ----
 
@@ -210,7 +217,7 @@ type fireKey struct{ c, i, k int64 }
 // called for every callback a task gives away.
 // `want` (may be nil = the scheduler's consumer) gives the goroutine every task and final of
 // this chain must run on at that moment.
-func buildChain(l *evlog, c int64, tasks []behSpec, later func(key fireKey, f func()), want func() int64) ([]waterfall.Task, waterfall.FinalCallback) {
+func buildChain(l *evlog, c int64, tasks []behSpec, later func(key fireKey, f func()), want func() int64, panKind string) ([]waterfall.Task, waterfall.FinalCallback) {
 	rec := func(e hx.T) {
 		if want == nil {
 			l.add(e)
@@ -233,7 +240,7 @@ func buildChain(l *evlog, c int64, tasks []behSpec, later func(key fireKey, f fu
 				later(fireKey{c, i, int64(k)}, func() { cb(x.err, toIface(x.res)...) })
 			}
 			if b.pan {
-				panic("c15: scripted task panic")
+				doPanic(panKind)
 			}
 		}
 	}
@@ -248,7 +255,7 @@ func buildChain(l *evlog, c int64, tasks []behSpec, later func(key fireKey, f fu
 func kindsHavePanic(progs []any) bool {
 	for _, p := range progs {
 		for _, k := range p.([]any) {
-			if hx.AsTerm(k).Name == "KPanic" {
+			if kindName(k) != "KOk" {
 				return true
 			}
 		}
@@ -334,14 +341,15 @@ func valid(ops []hx.T) bool {
 			}
 		case "OConc":
 			m := o.Int(0)
-			if m < 0 || m >= 5 || len(o.List(1)) > 64 {
+			if m < 0 || m >= 6 || len(o.List(1)) > 64 {
 				return false
 			}
-			if m >= 2 && kindsHavePanic(o.List(1)) {
+			if m >= 2 && m != 5 && kindsHavePanic(o.List(1)) {
 				return false
 			}
+		case "OTaskPanics":
 		case "OConcN":
-			if m := o.Int(0); m < 0 || m >= 5 {
+			if m := o.Int(0); m < 0 || m >= 6 {
 				return false
 			}
 			if np := o.Int(1); np < 0 || np > 64 {
@@ -434,27 +442,28 @@ type posterG struct {
 }
 
 type scriptRun struct {
-	s        *sche.Sche
-	log      *evlog
-	step     chan struct{}
-	stepDone chan struct{}
-	quit     chan struct{}
-	posters  map[int64]*posterG
-	stopped  bool
-	esc      int32
-	pmu      sync.Mutex
-	pending  map[fireKey]func()
-	chains   map[int64]*chainG
-	curTop   int64 // goroutine performing the current top-level Simple call / callback
-	mgr      *sche.Mgr
-	mgrIds   map[*sche.Sche]int64
-	timedOut bool
-	sawId0   bool    // id-tracked script: the consumer received a task whose id is 0
-	tracking bool    // id-tracked script: report RunTask.id of every task the consumer receives
-	hasChain bool    // chain script (posts never block): the shadow queue below is maintained
-	shadow   []int64 // per queued task, in queue order: the chain it belongs to, -1 = plain closure
-	curChain int64   // the chain whose closure / callback / caller goroutine is running now (shared lists)
-	lists    map[int64]*sharedList
+	s         *sche.Sche
+	log       *evlog
+	step      chan struct{}
+	stepDone  chan struct{}
+	quit      chan struct{}
+	posters   map[int64]*posterG
+	stopped   bool
+	esc       int32
+	pmu       sync.Mutex
+	pending   map[fireKey]func()
+	chains    map[int64]*chainG
+	curTop    int64 // goroutine performing the current top-level Simple call / callback
+	mgr       *sche.Mgr
+	mgrIds    map[*sche.Sche]int64
+	timedOut  bool
+	sawId0    bool    // id-tracked script: the consumer received a task whose id is 0
+	tracking  bool    // id-tracked script: report RunTask.id of every task the consumer receives
+	hasChain  bool    // chain script (posts never block): the shadow queue below is maintained
+	shadow    []int64 // per queued task, in queue order: the chain it belongs to, -1 = plain closure
+	curChain  int64   // the chain whose closure / callback / caller goroutine is running now (shared lists)
+	lists     map[int64]*sharedList
+	taskPanic string // what the panicking tasks of chains declared from now on panic with (OTaskPanics)
 }
 
 // chainG: what the harness knows about one declared chain
@@ -571,6 +580,12 @@ func (r *scriptRun) consumerLoop(ready chan struct{}) {
 			return
 		case <-r.step:
 		}
+		if atomic.LoadInt32(&r.esc) != 0 {
+			// a panic left DoTask: Handler / the selector loop would be gone with it (neither
+			// recovers), so this consumer takes nothing more - the closures behind stay unexecuted
+			r.stepDone <- struct{}{}
+			continue
+		}
 		select {
 		case t, ok := <-ch:
 			if ok && t != nil {
@@ -634,8 +649,8 @@ func (r *scriptRun) poster(p int64, size int) *posterG {
 				}()
 				t := r.s.Post(func() {
 					r.log.add(hx.C("SExec", p, w.seq))
-					if w.kind == "KPanic" {
-						panic("c15: scripted closure panic")
+					if w.kind != "KOk" {
+						doPanic(w.kind)
 					}
 				})
 				res = t != nil
@@ -728,18 +743,19 @@ func Exec(ops []hx.T, tags map[string]bool) (obs any, nontrivial bool) {
 		return "BInvalid", false
 	}
 	r := &scriptRun{
-		s:        sche.NewSche(),
-		log:      &evlog{foreign: map[int64]bool{}},
-		step:     make(chan struct{}),
-		stepDone: make(chan struct{}, 1),
-		quit:     make(chan struct{}),
-		posters:  map[int64]*posterG{},
-		pending:  map[fireKey]func(){},
-		chains:   map[int64]*chainG{},
-		mgr:      sche.NewScheMgr(),
-		mgrIds:   map[*sche.Sche]int64{},
-		lists:    map[int64]*sharedList{},
-		curChain: -1,
+		s:         sche.NewSche(),
+		log:       &evlog{foreign: map[int64]bool{}},
+		step:      make(chan struct{}),
+		stepDone:  make(chan struct{}, 1),
+		quit:      make(chan struct{}),
+		posters:   map[int64]*posterG{},
+		pending:   map[fireKey]func(){},
+		chains:    map[int64]*chainG{},
+		mgr:       sche.NewScheMgr(),
+		mgrIds:    map[*sche.Sche]int64{},
+		lists:     map[int64]*sharedList{},
+		curChain:  -1,
+		taskPanic: "KPanic",
 	}
 	for _, o := range ops {
 		switch o.Name {
@@ -771,7 +787,10 @@ func Exec(ops []hx.T, tags map[string]bool) (obs any, nontrivial bool) {
 			g := r.poster(p, sizes[p])
 			n, kind := int64(1), "KOk"
 			if o.Name == "OPost" {
-				kind = o.Term(1).Name
+				kind = kindName(o.Args[1])
+				if pvalUncomparable[kind] {
+					tags["panic-uncomparable"] = true
+				}
 			} else {
 				n = o.Int(1)
 			}
@@ -806,7 +825,7 @@ func Exec(ops []hx.T, tags map[string]bool) (obs any, nontrivial bool) {
 			c := o.Int(0)
 			if r.chains[c] == nil {
 				r.chains[c] = &chainG{kind: "sche"}
-				fns, final := buildChain(r.log, c, parseTasks(o.List(1)), r.setPending, nil)
+				fns, final := buildChain(r.log, c, parseTasks(o.List(1)), r.setPending, nil, r.taskPanic)
 				n0 := len(r.s.GetChanTask())
 				func() {
 					defer func() {
@@ -833,7 +852,7 @@ func Exec(ops []hx.T, tags map[string]bool) (obs any, nontrivial bool) {
 			if r.chains[c] == nil {
 				r.chains[c] = &chainG{kind: "simple"}
 				fns, final := buildChain(r.log, c, parseTasks(o.List(1)), r.setPending,
-					func() int64 { return atomic.LoadInt64(&r.curTop) })
+					func() int64 { return atomic.LoadInt64(&r.curTop) }, r.taskPanic)
 				pan, _ := r.goWait(func() { waterfall.Simple(fns, final) }, true)
 				if pan {
 					extra = append(extra, hx.C("SEsc", c))
@@ -847,7 +866,7 @@ func Exec(ops []hx.T, tags map[string]bool) (obs any, nontrivial bool) {
 				ch := &chainG{kind: "wait", done: make(chan struct{})}
 				r.chains[c] = ch
 				fns, final := buildChain(r.log, c, parseTasks(o.List(1)), r.setPending,
-					func() int64 { return atomic.LoadInt64(&ch.goid) })
+					func() int64 { return atomic.LoadInt64(&ch.goid) }, r.taskPanic)
 				started := make(chan struct{})
 				go func() {
 					defer close(ch.done)
@@ -892,6 +911,10 @@ func Exec(ops []hx.T, tags map[string]bool) (obs any, nontrivial bool) {
 				}
 			}
 			perOp = append(perOp, append(snapshot(), extra...))
+		case "OTaskPanics":
+			r.taskPanic = o.Term(0).Name
+			tags["task-panic-value"] = true
+			perOp = append(perOp, snapshot())
 		case "OSetId":
 			v := uint32(o.Int(0))
 			sche.VerifSetNextTaskId(v)
@@ -959,7 +982,7 @@ func Exec(ops []hx.T, tags map[string]bool) (obs any, nontrivial bool) {
 			}
 			perOp = append(perOp, ev)
 		case "OConcW":
-			ev, g, e := runConcW(o.Int(0), o.List(1), tags)
+			ev, g, e := runConcW(o.Int(0), o.List(1), r.taskPanic, tags)
 			gor, esc = gor && g, esc || e
 			if len(ev) > 0 {
 				nontrivial = true
@@ -968,13 +991,14 @@ func Exec(ops []hx.T, tags map[string]bool) (obs any, nontrivial bool) {
 		}
 	}
 	// drain: run the consumer until nothing is queued and no poster is blocked
-	for guard := 0; r.busy() && guard < 200000 && !r.timedOut; guard++ {
+	for guard := 0; r.busy() && guard < 200000 && !r.timedOut && atomic.LoadInt32(&r.esc) == 0; guard++ {
 		r.doStep()
 	}
 	drain := snapshot()
 	close(r.quit)
 	if !r.stopped {
 		r.s.Stop()
+		r.settle() // posters left blocked by a dead consumer return now (Post recovers, nil)
 	}
 	posts := []any{}
 	for p := int64(0); p < nPosters; p++ {
@@ -1054,6 +1078,12 @@ func waitChan(ch <-chan struct{}, abort func() bool) bool {
 // heavy-frame accounting of the loop must not disturb the order).  On a RunService every odd
 // poster posts through the registry (GetScheMgr().GetSche(name)), which must be the same
 // scheduler; after Stop the service reports stopped and the name is free again.
+// 5: the selector loop of a RunService (MultiSelector + FuncSelector over GetChanTask calling
+// DoTask, as RunService.Start wires it) on a goroutine of the harness.  In modes 0, 1, 5 the
+// consumer goroutine runs under a guard: a panic that leaves the loop ends that consumer (the
+// closures behind it never run - visible in the events) and sets esc; it does not end the
+// harness.  A real RunService starts its own goroutine, which cannot be guarded: the model
+// has no panicking closures there.
 func runConc(mode int64, progs []any, tags map[string]bool) (events []any, gor, esc bool) {
 	l := &evlog{foreign: map[int64]bool{}}
 	var s *sche.Sche
@@ -1064,8 +1094,10 @@ func runConc(mode int64, progs []any, tags map[string]bool) (events []any, gor, 
 	var viaReg *sche.Sche
 	gate := make(chan struct{})
 	var gateGoid int64
+	selClose := make(chan int, 1)
+	ownLoop := mode <= 1 || mode == 5 // the consumer goroutine is ours: it runs under a guard
 	startConsumer := func() {
-		if mode <= 1 {
+		if ownLoop {
 			ready := make(chan struct{})
 			go func() {
 				defer close(handlerDone)
@@ -1078,7 +1110,25 @@ func runConc(mode int64, progs []any, tags map[string]bool) (events []any, gor, 
 				l.consumer = curGoid()
 				l.mu.Unlock()
 				close(ready)
-				s.Handler()
+				if mode != 5 {
+					s.Handler()
+					return
+				}
+				// the loop of a RunService (Start: addSchedulerSelector, addCloseChan, loop)
+				sel := sche.NewMultiSelector()
+				sel.AddSelector("sheduler", sche.NewFuncSelector(reflect.ValueOf(s.GetChanTask()),
+					func(v reflect.Value, recvOk bool) {
+						if !recvOk {
+							return
+						}
+						s.DoTask(v.Interface().(*sche.RunTask))
+					}))
+				running := true
+				sel.AddSelector("__close__", sche.NewFuncSelector(reflect.ValueOf(selClose),
+					func(v reflect.Value, recvOk bool) { running = false }))
+				for running {
+					sel.HandleOnce()
+				}
 			}()
 			<-ready
 		} else {
@@ -1086,7 +1136,7 @@ func runConc(mode int64, progs []any, tags map[string]bool) (events []any, gor, 
 			close(handlerDone)
 		}
 	}
-	if mode <= 1 {
+	if ownLoop {
 		s = sche.NewSche()
 	} else {
 		name := fmt.Sprintf("c15-rs-%d", atomic.AddInt64(&rsCounter, 1))
@@ -1153,7 +1203,7 @@ func runConc(mode int64, progs []any, tags map[string]bool) (events []any, gor, 
 			<-start
 			for n, k := range kinds {
 				n := int64(n)
-				pan := hx.AsTerm(k).Name == "KPanic"
+				pan := kindName(k)
 				var t *sche.RunTask
 				func() {
 					defer func() {
@@ -1173,8 +1223,8 @@ func runConc(mode int64, progs []any, tags map[string]bool) (events []any, gor, 
 							d := []int64{35, 55, 11105}[n]
 							common.VerifSetNowNano(common.NowNano() + d*1000000)
 						}
-						if pan {
-							panic("c15: scripted closure panic")
+						if pan != "KOk" {
+							doPanic(pan)
 						}
 					})
 				}()
@@ -1269,6 +1319,7 @@ func runConc(mode int64, progs []any, tags map[string]bool) (events []any, gor, 
 		}
 		runservice.GetScheMgr().DelSche(rs.Name)
 	} else {
+		close(selClose)
 		s.Stop()
 	}
 	select {
@@ -1291,7 +1342,7 @@ func runConc(mode int64, progs []any, tags map[string]bool) (events []any, gor, 
 // runConcW: several chains started concurrently on one Sche with the real Handler; every
 // callback a task gives away is invoked from a fresh goroutine.  Events are returned grouped
 // by chain (stable), i.e. as per-chain projections.
-func runConcW(mode int64, chains []any, tags map[string]bool) (events []any, gor, esc bool) {
+func runConcW(mode int64, chains []any, panKind string, tags map[string]bool) (events []any, gor, esc bool) {
 	l := &evlog{foreign: map[int64]bool{}}
 	s := sche.NewSche()
 	var escFlag int32
@@ -1339,7 +1390,7 @@ func runConcW(mode int64, chains []any, tags map[string]bool) (events []any, gor
 	start := make(chan struct{})
 	for ci := range chains {
 		c := int64(ci)
-		fns, final := buildChain(l, c, parseTasks(chains[ci].([]any)), later, nil)
+		fns, final := buildChain(l, c, parseTasks(chains[ci].([]any)), later, nil, panKind)
 		wg.Add(1)
 		go func() {
 			defer wg.Done()
